@@ -39,7 +39,7 @@ Definition funquote (f : field) : bytes := concat (map fst f).
 Fixpoint esc_pattern (s : bytes) : bytes :=
   match s with
   | [] => []
-  | c :: s' => if memb c [63; 42; 91; 92] then 92 :: c :: esc_pattern s' else c :: esc_pattern s'
+  | c :: s' => if memb c Extracted.pattern_escaped then 92 :: c :: esc_pattern s' else c :: esc_pattern s'
   end.
 Definition fpattern (f : field) : bytes :=
   concat (map (fun sq : bytes * bool => if snd sq then esc_pattern (fst sq) else fst sq) f).
